@@ -628,6 +628,16 @@ pub fn inputs_for_witness_calculation(
 ) -> Result<[(&str, Vec<Fr>); 7]> {
     message_id_range_check(&rln_witness.message_id, &rln_witness.user_message_limit)?;
 
+    // The circuit constrains every path index to be a bit and takes one index per path element
+    if rln_witness.identity_path_index.iter().any(|&b| b > 1) {
+        return Err(Report::msg("identity_path_index contains a non-binary value"));
+    }
+    if rln_witness.identity_path_index.len() != rln_witness.path_elements.len() {
+        return Err(Report::msg(
+            "identity_path_index and path_elements have different lengths",
+        ));
+    }
+
     let mut identity_path_index = Vec::with_capacity(rln_witness.identity_path_index.len());
     rln_witness
         .identity_path_index
